@@ -8,7 +8,25 @@ from . import units
 def compile_witness(src, anchor_unit, defines=()):
     """returns (ok, first error lines).  Flags are those of `anchor_unit`'s directory."""
     cwd, flags = units.unit_flags(units.src(anchor_unit))
-    cmd = ["clang++"] + list(flags) + ["-fsyntax-only", "-ferror-limit=0", "-Wno-everything"] + ["-D" + d for d in defines] + [src]
-    p = subprocess.run(cmd, cwd=cwd, stdout=subprocess.PIPE, stderr=subprocess.STDOUT, universal_newlines=True)
+    extra = []
+    vfs = None
+    if units.OVERLAY:
+        # thorough tier / self-validation: the witness must see the same overlaid sources as the fact extractor
+        import json
+        import tempfile
+        roots = []
+        for path, repl in sorted(units.OVERLAY.items()):
+            roots.append({"name": os.path.dirname(path), "type": "directory",
+                          "contents": [{"name": os.path.basename(path), "type": "file", "external-contents": repl}]})
+        fd, vfs = tempfile.mkstemp(prefix="sqcheck-vfs-", suffix=".yaml")
+        with os.fdopen(fd, "w") as f:
+            json.dump({"version": 0, "case-sensitive": "true", "roots": roots}, f)
+        extra = ["-ivfsoverlay", vfs]
+    cmd = ["clang++"] + list(flags) + extra + ["-fsyntax-only", "-ferror-limit=0", "-Wno-everything"] + ["-D" + d for d in defines] + [src]
+    try:
+        p = subprocess.run(cmd, cwd=cwd, stdout=subprocess.PIPE, stderr=subprocess.STDOUT, universal_newlines=True)
+    finally:
+        if vfs:
+            os.unlink(vfs)
     errs = [ln for ln in p.stdout.splitlines() if " error: " in ln or "fatal error" in ln]
     return p.returncode == 0, errs
